@@ -50,11 +50,14 @@ def main():
         res["serde_lib_suite_passes_with_mutant"] = ("FAILED" not in out2 and not re.search(r"[1-9]\d* failed", out2))
         # (2) demo with mutant
         shutil.copy(f"{mdir}/demo.rs", f"{D}/repo/tests/seeded_demo.rs")
+        # build outside the namespace wrapper (a tmpfs over /etc hides /etc/alternatives/cc from the linker)
+        sh(f"cargo test --offline {feats} --test seeded_demo --no-run 2>&1 | tail -3", cwd=f"{D}/repo", env=env_t)
         rc, out = sh(f"{wrap}cargo test --offline {feats} --test seeded_demo {single} 2>&1 | tail -25", cwd=f"{D}/repo", env=env_t)
         res["demo_fails_with_mutant"] = bool(re.search(r"[1-9]\d* failed|panicked|FAILED", out)) and "could not compile" not in out
         res["demo_with_mutant_tail"] = out[-600:]
         # (3) demo without mutant
         sh(f"git apply -R {mdir}/patch.diff", cwd=f"{D}/repo")
+        sh(f"cargo test --offline {feats} --test seeded_demo --no-run 2>&1 | tail -3", cwd=f"{D}/repo", env=env_t)
         rc, out = sh(f"{wrap}cargo test --offline {feats} --test seeded_demo {single} 2>&1 | tail -8", cwd=f"{D}/repo", env=env_t)
         res["demo_passes_without_mutant"] = bool(re.search(r"test result: ok", out)) and not re.search(r"[1-9]\d* failed", out)
         os.remove(f"{D}/repo/tests/seeded_demo.rs")
